@@ -258,15 +258,47 @@ class Ctx(object):
         self.known.append(fid)
 
     # ---- Coq -----------------------------------------------------------------
+    def dep_closure(self):
+        """.v files the property's statement file depends on (from the make dependency file)."""
+        dfile = os.path.join(COQ, '.Makefile.coq.d')
+        deps = {}
+        try:
+            txt = open(dfile).read().replace('\\\n', ' ')
+        except OSError:
+            return None
+        for line in txt.splitlines():
+            if ':' not in line:
+                continue
+            lhs, rhs = line.split(':', 1)
+            tgt = [t for t in lhs.split() if t.endswith('.vo')]
+            if not tgt:
+                continue
+            deps[tgt[0]] = [d for d in rhs.split() if d.endswith('.vo')]
+        start = 'theories/Props/%s.vo' % self.pid
+        if start not in deps:
+            return None
+        seen, todo = set(), [start]
+        while todo:
+            x = todo.pop()
+            if x in seen:
+                continue
+            seen.add(x)
+            todo += deps.get(x, [])
+        return {os.path.join(COQ, x[:-1]) for x in seen if x.startswith(('theories/', 'gen/'))}
+
     def gate(self):
-        """Refuse forbidden vernacular anywhere in the development."""
+        """Refuse forbidden vernacular in every file the property's theorems depend on (the whole
+        development when the dependency file is unavailable)."""
         bad = []
+        scope = self.dep_closure()
         for root, _, files in os.walk(COQ):
             if os.sep + 'cases' in root:
                 continue
             for fn in files:
-                if fn.endswith('.v'):
+                if fn.endswith('.v') and not fn.startswith('Tmp_goal_'):
                     p = os.path.join(root, fn)
+                    if scope is not None and p not in scope:
+                        continue
                     txt = re.sub(r'\(\*.*?\*\)', '', open(p).read(), flags=re.S)
                     for m in FORBIDDEN.finditer(txt):
                         # Section variables are allowed (inside a Section only)
@@ -274,6 +306,7 @@ class Ctx(object):
                             if _inside_section(txt, m.start()):
                                 continue
                         bad.append('%s: %s' % (os.path.relpath(p, COQ), m.group(1)))
+        self.extra['gate_scope_files'] = 'all' if scope is None else len(scope)
         self.obligation('gate:no-admitted-axiom-parameter', not bad, '; '.join(bad[:5]))
         return not bad
 
@@ -291,7 +324,6 @@ class Ctx(object):
         """Build everything Props/<pid>.v depends on, then compile that file
         and audit the axioms each theorem depends on.  Returns True when every
         obligation is discharged."""
-        self.gate()
         props = 'theories/Props/%s.v' % self.pid
         src = open(os.path.join(COQ, props)).read()
         theorems = re.findall(r'^\s*(?:Theorem|Lemma|Corollary|Example)\s+([\w\']+)', src, flags=re.M)
@@ -302,6 +334,7 @@ class Ctx(object):
             except OSError:
                 pass
         ok, detail = self.coq_build([props + 'o'] + list(extra_targets))
+        self.gate()
         if not ok:
             for t in theorems:
                 self.obligation(t, False, detail)
